@@ -84,6 +84,16 @@ class Order(PathFacts):
         return super().assume(test, st, truth)
 
 
+def rule_params_unchanged(cx, rid, mi):
+    """target(): the caller's port/platform/board are what is validated and written - none of them is re-bound"""
+    tgt = mi.func("target")
+    r = cx.rule(rid, "target() never re-binds port, platform or board: the pair that is validated and the values written to platformio.ini are the caller's own (no inference of one from the other, no normalisation)", floor=3)
+    for p_ in ("port", "platform", "board"):
+        stores = [n for n in walk_local(tgt) if isinstance(n, ast.Name) and n.id == p_ and isinstance(n.ctx, (ast.Store, ast.Del))]
+        r.check(not stores, f"target/parameter[{p_}]-rebound", (mi, stores[0] if stores else tgt), f"target() assigns to its parameter `{p_}`: a platform/board pair the caller gave can then pass validation (or be written) as a different pair", sample=f"target: {p_} not re-bound")
+    return r
+
+
 def run(cx):
     mi, mp = mod(INIT), mod(PIO)
     cx.consulted(mi)
@@ -99,6 +109,8 @@ def run(cx):
     for need in ("port", "upload", "platform", "board"):
         if need not in params:
             raise AnalysisError(f"target() lost parameter {need}")
+
+    rule_params_unchanged(cx, "C12-PARAMS", mi)
 
     # ---- C12-ORDER ---------------------------------------------------------------------------
     r = cx.rule("C12-ORDER", "validate_platform_board(platform, board) precedes every other call; ensure_pio and compile_upload happen iff upload; ensure_pio precedes reading/writing anything", floor=8)
